@@ -15,7 +15,7 @@ type c10Case struct {
 
 var c10Lexemes = []string{"a", "<", ">", "&", `"`, "'", ";", "#", "&amp;", "&lt;", "&#34;", "&#39;", "&quot;", "é", "\n", `\`, " ", ","}
 
-var c10Contexts = []string{"print", "concat", "var", "array", "ternary", "raw", "raw-concat", "raw-var", "concat-var", "insert-arg", "component-arg", "component-arg-raw", "insert-block", "slot-body", "raw-then-print", "raw-twice", "print-raw-print", "array-last", "array-only", "array-nested-last", "loop-print", "loop-concat", "loop-raw", "loop-var-concat"}
+var c10Contexts = []string{"print", "concat", "var", "array", "ternary", "raw", "raw-concat", "raw-var", "concat-var", "insert-arg", "component-arg", "component-arg-raw", "insert-block", "slot-body", "raw-then-print", "raw-twice", "print-raw-print", "array-last", "array-only", "array-nested-last", "loop-print", "loop-concat", "loop-raw", "loop-var-concat", "object-key", "object-key-lookup", "object-key-nested"}
 
 // c10Literal returns the literal's text and its source form; ok=false for contents that cannot
 // be written (a backslash before a quote or at the end).
@@ -108,6 +108,15 @@ func c10Check(cs c10Case) (ok bool, sig, expected, observed string) {
 	case "loop-var-concat":
 		src = "@each(i in [1, 2]){{ v = " + lit + ` }}{{ v + "x" + v }}|@end`
 		want = text + "x" + text + "|" + text + "x" + text + "|"
+	case "object-key": // a string literal as the key of an object literal: its text reaches the output when the object is printed
+		src = "{{ {" + lit + ": 1} }}"
+		want = "{" + text + ": 1}"
+	case "object-key-nested":
+		src = "{{ [{" + lit + `: "<v>"}] }}`
+		want = "{" + text + ": <v>}"
+	case "object-key-lookup": // the same literal as key and as index names the same property
+		src = "{{ {" + lit + `: "v"}[` + lit + "] }}"
+		want = "v"
 	case "concat-var":
 		src = "{{ v = " + lit + ` }}{{ "<" + v + v }}`
 		want = "<" + text + text
@@ -247,7 +256,7 @@ func init() {
 	p := &Property{
 		ID:    "C10",
 		Level: "exploration",
-		Rule: "bounded-exhaustive: every literal content of <=k lexemes over {a < > & \" ' ; # &amp; &lt; &#34; &#39; &quot; é newline backslash} x both quote styles (own quote backslash-escaped) x 24 usage contexts (as built: also evaluated in every pass of a loop, after raw() of the same value, as last / only / nested array element) (printed, concatenated, variable, array element, ternary arm, raw() of each, insert expression and block, component argument (also raw inside the component), slot body). " +
+		Rule: "bounded-exhaustive: every literal content of <=k lexemes over {a < > & \" ' ; # &amp; &lt; &#34; &#39; &quot; é newline backslash} x both quote styles (own quote backslash-escaped) x 27 usage contexts (as built: also evaluated in every pass of a loop, after raw() of the same value, as last / only / nested array element) (printed, concatenated, variable, array element, ternary arm, raw() of each, insert expression and block, component argument (also raw inside the component), slot body). " +
 			"Oracle: no raw < or >, every & starts an entity, quotes as written, html.UnescapeString(output) == literal; raw(): output == literal. Non-trivial: the literal contains one of < > & \" '",
 		Bounds: func(tier string) map[string]any {
 			if tier == "thorough" {
